@@ -2,6 +2,7 @@ import Std.Data.HashMap
 import Std.Data.HashSet
 import RegexVerif.Sexp
 import RegexVerif.Model.Reduce
+import RegexVerif.Model.ChainHyps
 import RegexVerif.Driver.Parser
 
 namespace RegexVerif.Driver
@@ -16,7 +17,7 @@ Request: `(c01 pipeline <the fields of (c18 parser …)> (sets (code…)…) (ch
   (`CharSet.CharIn`); `ov`: the sets of `sets` a set may overlap (`CharSet.MayOverlap`, first argument =
   receiver); `pword` / `peword`: `IsWordChar` / `IsECMAWordChar` on `chars`.
 Answer: `(ok (off TREE) (on TREE) <info> (prog codes strings sets trackcount capsize caps rtl inuse quick)
-          (wf treeWf wfProg wfQuick okRaw) (miss 0|1) (fired tag…))`
+          (wf treeWf wfProg wfQuick okRaw chainHyps) (miss 0|1) (fired tag…))`
         | `(error code)` | `(fault what)` | `(fuel)` | `(write-error (off TREE) (on TREE))`.
   `miss` = an oracle question outside the supplied universe changed the result. -/
 
@@ -137,7 +138,9 @@ def handlePipeline (args : List Sexp) : String :=
             ofNat w.prog.trackcount, ofNat w.prog.capsize, pairsSexp w.prog.caps, ofBool w.prog.rtl,
             .list (w.slotInUse.map ofBool),
             (match w.quick with | some q => mk "quick" (q.map ofInt) | none => mk "noquick" [])],
-          mk "wf" [ofBool (Writer.treeWf info onF), ofBool (Writer.wfProg w.prog), ofBool quickWf, ofBool (okRawTree (ofRaw t.root))],
+          mk "wf" [ofBool (Writer.treeWf info onF), ofBool (Writer.wfProg w.prog), ofBool quickWf, ofBool (okRawTree (ofRaw t.root)),
+            -- the hypotheses of `Props.C10.compile_and_run_no_fault_partial` (Model/ChainHyps.lean)
+            ofBool (RawShapeOk t && PrescanAgrees t)],
           mk "miss" [ofBool miss],
           mk "fired" ((fired orcF (ofRaw t.root)).map atom)])
   | _, _, _ => "(bad-op)"
